@@ -1,4 +1,5 @@
 import PhyVerif.Model.C09
+import PhyVerif.Model.C09b
 import PhyVerif.Model.C12
 /-!
 Model of the value side of the ALF export (property C14), phylib/io/alf.py:
@@ -55,5 +56,36 @@ def clusterDepths (ys : List Rat) (peaks : List Nat) (nanIdx : List Nat) : List 
 /-- `spikes.depths` when there is no feature file: the depth of the spike's cluster -/
 def spikeDepthsFromClusters (cd : List (Option Rat)) (sc : List Nat) : List (Option Rat) :=
   sc.map fun c => cd.getD c none
+
+/-- `templates[t, ...] = templates_v[t, :][:, templates_inds[t, :]]` (alf.py:268, 289) on the waveforms RETURNED by
+`get_amplitudes_true` — an id without spikes has a NaN waveform (`none`), exported as NaN on every listed channel.
+A listed channel `≥ n_channels` raises `IndexError` in the real code (here: `getD`, see `waveforms_export_eq`). -/
+def exportWaveformsOpt (wfs : List (Option Mat)) (inds : List (List Nat)) : List (Option Mat) :=
+  (wfs.zip inds).map fun p => p.1.map fun W => W.map fun row => p.2.map fun c => row.getD c 0
+
+/-- the amplitude-carrying files written by `make_template_and_spikes_objects` (alf.py:238-292) -/
+structure AmpFiles where
+  spikesAmps : List Rat                    -- spikes.amps            (alf.py:249)
+  templatesAmps : List (Option Rat)        -- templates.amps         (alf.py:250)
+  templatesWaveforms : List (Option Mat)   -- templates.waveforms    (alf.py:268-269)
+  clustersAmps : List (Option Rat)         -- clusters.amps          (alf.py:292)
+  clustersWaveforms : List (Option Mat)    -- clusters.waveforms     (alf.py:289-290)
+deriving Repr, DecidableEq
+
+/-- `make_template_and_spikes_objects` with `ampfactor = f`: two calls of `get_amplitudes_true(f, use=…)`
+(the C09 model: `dT` = template waveforms + spike_templates, `dC` = cluster waveforms + spike_clusters), the
+listed-channel tables `indsT`/`indsC` being those computed by `nearestSameProbe`.
+`clusters.amps` is written twice during one `convert`: `make_cluster_objects` (alf.py:194, mean STORED amplitude ×
+factor) runs first and its file is overwritten here (alf.py:292) — only this second content is observable. -/
+def exportAmpFiles (dT dC : Data) (f : Rat) (indsT indsC : List (List Nat)) : AmpFiles :=
+  let (sa, tv, ta) := amplitudesTrue dT f
+  let (_, cv, ca) := amplitudesTrue dC f
+  { spikesAmps := sa, templatesAmps := ta, templatesWaveforms := exportWaveformsOpt tv indsT,
+    clustersAmps := ca, clustersWaveforms := exportWaveformsOpt cv indsC }
+
+/-- `clusters.peakToTrough` (alf.py:184-189): `waveform_duration = model.clusters_waveforms_durations` (C09
+`waveformDurations`, milliseconds), `waveform_duration[nan_idx] = nan` -/
+def exportPeakToTrough (wfsC : List Mat) (rate : Rat) (nanIdx : List Nat) : List (Option Rat) :=
+  (waveformDurations wfsC rate).zipIdx.map fun p => if nanIdx.contains p.2 then none else some p.1
 
 end PhyVerif.C14
